@@ -30,7 +30,8 @@ def plan(ctx):
     seqs = [("mt-%d" % i, gm.mt_seq(rng)) for i in range(n)]
     m = 150 if tier == "quick" else 6000
     rules = [("rules-%d" % i, rules_seq(rng)) for i in range(m)]
-    return [("corpus", corpus(ID)), ("gen", seqs), ("rules", rules)]
+    rx = [("rx-%d" % i, rx_seq(rng)) for i in range(200 if tier == "quick" else 8000)]
+    return [("corpus", corpus(ID)), ("gen", seqs), ("rules", rules), ("rx", rx)]
 
 
 def hx(s):
@@ -73,6 +74,84 @@ def rules_seq(rng):
             if rng.random() < 0.2:
                 name = name.upper() if rng.random() < 0.5 else name.capitalize()
             ops.append("rules apply n=%s r=%s" % (hx(name), ";".join(rs)))
+    return ops
+
+
+# ---- regular expressions: a random AST rendered twice (Go syntax for the real code, postfix for the model) ----
+
+def _hx2(c):
+    return "%02x" % ord(c)
+
+
+def gen_re(rng, depth, groups, alpha="abc01/"):
+    """returns (go syntax, postfix tokens, nullable, atomic); `atomic`: a quantifier can be written directly after it"""
+    k = rng.random()
+    if depth <= 0 or k < 0.35:
+        j = rng.random()
+        if j < 0.6:
+            c = rng.choice(alpha + "ABC")
+            return (("\\" + c) if c in ".*+?()[]^$|\\" else c, ["c" + _hx2(c)], False, True)
+        if j < 0.75:
+            return (".", ["."], False, True)
+        cls = rng.choice([("[0-9]", "k0_30-39"), ("[a-c]", "k0_61-63"), ("[^/]", "k1_2f-2f"), ("[a-z0-9]", "k0_61-7a_30-39"), ("[^a-b]", "k1_61-62"),
+                          ("\\d", "k0_30-39")])
+        return (cls[0], [cls[1]], False, True)
+    if k < 0.6:
+        a, b = gen_re(rng, depth - 1, groups, alpha), gen_re(rng, depth - 1, groups, alpha)
+        return (a[0] + b[0], a[1] + b[1] + ["S"], a[2] and b[2], False)
+    if k < 0.72:
+        a, b = gen_re(rng, depth - 1, groups, alpha), gen_re(rng, depth - 1, groups, alpha)
+        return ("(?:%s|%s)" % (a[0], b[0]), a[1] + b[1] + ["A"], a[2] or b[2], True)
+    if k < 0.9:
+        a = gen_re(rng, depth - 1, groups, alpha)
+        if a[2]:
+            return a
+        q = rng.choice(["*", "+", "?"])
+        go = a[0] if a[3] else "(?:%s)" % a[0]
+        # a quantified expression is not written directly under another quantifier (`a**` is a syntax error, `(?:a*)?` fine)
+        return ("(?:%s%s)" % (go, q), a[1] + [{"*": "T", "+": "P", "?": "O"}[q]], q != "+", True)
+    a = gen_re(rng, depth - 1, groups, alpha)
+    groups[0] += 1
+    n = groups[0]
+    # Go numbers groups by the position of their opening parenthesis: the inner groups of `a` were numbered first here, so
+    # renumber: give this group the smallest number used inside and shift the inner ones up by one
+    inner = [int(t[1:]) for t in a[1] if t.startswith("g")]
+    if inner:
+        lo = min(inner)
+        toks = [("g%d" % (int(t[1:]) + 1)) if t.startswith("g") else t for t in a[1]]
+        return ("(%s)" % a[0], toks + ["g%d" % lo], a[2], True)
+    return ("(%s)" % a[0], a[1] + ["g%d" % n], a[2], True)
+
+
+def rx_seq(rng):
+    ops = []
+    for _ in range(rng.randint(3, 8)):
+        nrules = rng.randint(1, 3)
+        orders = rng.sample(range(0, 40), nrules)
+        rs = []
+        for o in orders:
+            for _try in range(20):
+                groups = [0]
+                go, post, nullable, _atomic = gen_re(rng, rng.choice([1, 2, 2, 3]), groups)
+                if not nullable:
+                    break
+            else:
+                go, post, groups = "a", ["c61"], [0]
+            anch = rng.random()
+            if anch < 0.15:
+                go, post = "^" + go, ["B"] + post + ["S"]
+            elif anch < 0.3:
+                go, post = go + "$", post + ["E", "S"]
+            flags = rng.choice(["-", "-", "a", "e", "t", "at", "et", "ea", "i"])
+            pieces = []
+            for _p in range(rng.randint(0, 3)):
+                pieces.append(rng.choice(["x", "*", "_", "/", "\\%d" % rng.randint(1, max(groups[0], 1) + 1), "\\0", "$%d" % rng.randint(0, 2), "${%d}" % rng.randint(0, 2),
+                                          "$$", "$", "$x", "\\\\", "\\\\1"]))
+            repl = "".join(pieces)
+            rs.append("%d~%s~%s~%s~%s" % (o, flags, ",".join(post), hx(go), hx(repl)))
+        for _n in range(rng.randint(2, 5)):
+            segs = ["".join(rng.choice("abc01ABC") for _ in range(rng.randint(0, 4))) for _ in range(rng.randint(1, 3))]
+            ops.append("rules rx n=%s r=%s" % (hx("/".join(segs)), ";".join(rs)))
     return ops
 
 
